@@ -44,7 +44,7 @@ prop("C04",
      lean_modules=["Galaxy.Props.C04", "Galaxy.Lemmas.PluginCrash", "Galaxy.Lemmas.PluginReserved"],
      factgen=["plugin"],
      drivers=["plugin"],
-     trusted=["tools/factgen/cmd/plugin: syntactic extraction (statement order inside single functions, no aliasing analysis)",
+     trusted=["tools/factgen/cmd/plugin: facts are matched on a NORMALISED trace of each function (normalise.go: value numbering of locals, path conditions as conjunct sets, guard clauses = nested ifs = &&, switch = if-chain, log lines / error texts dropped, Sprintf = concatenation, private helpers followed one level) - renamings, hoisted sub-expressions, named booleans and extracted helpers do not change a fact, a dropped / moved / weakened guard does (unit tests both ways, incl. the harmless patches H05/H07 and three seeded patches); no type checking, no aliasing analysis",
               "harness/plugin: client-go fake clientsets stand in for the API server; pods/binding is implemented by the "
               "decorator (UID precondition, nodeName, annotation merge); listers are indexers the harness fills; the resync "
               "checklist order and the event delivery order are chosen by the harness through verif_hooks_plugin.go"],
